@@ -97,6 +97,8 @@ type PathState struct {
 	bnTokV  []GVal
 	bnFresh int
 
+	secpSigs []*secpSig // secp256k1 model: signatures issued on this path
+
 	usedMapOrder bool
 	nondet       bool // the path uses an over-approximating stub: no sample prediction
 
